@@ -282,6 +282,10 @@ impl<T: Send> Stream for UnboundedAsyncReceiver<T> {
   fn poll_next(self: Pin<&mut Self>, cx: &mut Context<'_>) -> Poll<Option<Self::Item>> {
     let this = self.get_mut();
     if this.closed.load(Ordering::Relaxed) {
+      // Closed while a registration of this handle was parked: leave the wait
+      // list; if a sender had already notified it, the notification goes to
+      // the next waiter instead of dying here.
+      this.shared.cancel_wait(&mut this.stream_ctx);
       return Poll::Ready(None);
     }
     match this.shared.poll_recv_internal(cx.waker(), &mut this.stream_ctx) {
@@ -310,6 +314,12 @@ impl<'a, T: Send> Future for RecvFuture<'a, T> {
   fn poll(self: Pin<&mut Self>, cx: &mut Context<'_>) -> Poll<Self::Output> {
     let this = self.get_mut();
     if this.receiver.closed.load(Ordering::Relaxed) {
+      // See `poll_next`: a closed handle gives up its parked registration and
+      // passes a notification it had already received on.
+      this
+        .receiver
+        .shared
+        .cancel_wait(&mut this.receiver.stream_ctx);
       return Poll::Ready(Err(RecvError::Disconnected));
     }
     this
@@ -343,6 +353,12 @@ impl<'a, T: Send> Future for RecvBatchFuture<'a, T> {
       return Poll::Ready(Ok(Vec::new()));
     }
     if this.receiver.closed.load(Ordering::Relaxed) {
+      // See `poll_next`: a closed handle gives up its parked registration and
+      // passes a notification it had already received on.
+      this
+        .receiver
+        .shared
+        .cancel_wait(&mut this.receiver.stream_ctx);
       return Poll::Ready(Err(RecvError::Disconnected));
     }
     match this
@@ -393,6 +409,12 @@ impl<'a, T: Send> Future for RecvBatchMutFuture<'a, T> {
       return Poll::Ready(Ok(0));
     }
     if this.receiver.closed.load(Ordering::Relaxed) {
+      // See `poll_next`: a closed handle gives up its parked registration and
+      // passes a notification it had already received on.
+      this
+        .receiver
+        .shared
+        .cancel_wait(&mut this.receiver.stream_ctx);
       return Poll::Ready(Err(RecvError::Disconnected));
     }
     match this
